@@ -683,6 +683,14 @@ def c03_items(g, ft, pr, repo):
             ex = SymExec(pr, scalar_funcs(pr))
             env = {'self.dx': 'self_dx', 'self.wavelength': 'self_wavelength', 'efl': 'efl',
                    f'{data_name}.shape': Tup(['N0', 'N1'])}
+            # local temporaries between the transform and the conversion (`samples = data.shape[1]`, ...) are executed symbolically
+            for st in fn.body:
+                if isinstance(st, ast.Assign) and len(st.targets) == 1 and isinstance(st.targets[0], ast.Name) \
+                        and st.value is not r and st.value is not c and st.targets[0].id != data_name:
+                    try:
+                        env[st.targets[0].id] = ex.ev(st.value, env)
+                    except Untranslatable:
+                        env.pop(st.targets[0].id, None)
             term = ex.ev(c, env)
             # the reported value must be what is stored in the returned Wavefront, together with the array and the space
             tgt = [st.targets[0].id for st in fn.body if isinstance(st, ast.Assign) and st.value is c]
